@@ -119,6 +119,16 @@ def as_array(st, v):
         return ArrayVal((len(items),), lambda i: select_concrete(items, i, dt), dt)
     if isinstance(v, SeqVal):
         s = v.s
+        parts = getattr(v.elem, 'parts', None)
+        if parts and all(c.name == parts[0].name and c.name in ('Sym', 'Int', 'Real') for c in parts):
+            # list of equal-length tuples of one scalar kind: numpy makes a 2-d array of it
+            accs = v.elem.accs
+
+            def get2(i, j):
+                row = s[to_int(i)]
+                cells = [parts[k].unpack(accs[k](row)) for k in range(len(parts))]
+                return select_concrete(cells, j, parts[0].name.lower())
+            return ArrayVal((z3.Length(s), len(parts)), get2, parts[0].name.lower())
         return ArrayVal((z3.Length(s),), lambda i: v.elem.unpack(s[to_int(i)]), v.elem.name.lower() if v.elem.name in ('Sym', 'Int', 'Real') else 'obj')
     raise Unsupported('not array-like: %r' % (v,))
 
